@@ -1,11 +1,28 @@
 import Sucds.Gen.Fns
 import Sucds.Proofs.GenBroadword
 import Sucds.Proofs.GenBitVectorRW
+import Sucds.Proofs.GenCompactVector
 import Sucds.Proofs.GenRank9Sel
+import Sucds.Proofs.C09GenAux
 import Sucds.Proofs.GenDacsWidths
 import Sucds.Proofs.GenIterators
 import Sucds.Proofs.DacsAccess
 import Sucds.Props.C11
+/-! # The functions generated from `src/int_vectors/dacs_byte.rs` agree with the model `DacB`
+
+`Sucds.GenFn.DacsByte.{from_slice, build_from_slice, default, access, len, num_vals, is_empty, num_levels, widths, iter}`
+and `Sucds.GenFn.dacs_byte_Iter.{new, next, size_hint}` (generated) versus `Sucds.DacB.{fromSlice, default, access, len,
+numLevels, widths}` (hand-written model, `Sucds/Model/Dacs.lean`) and the index-iterator model `IndexIter`.
+
+* `dacs_byte_from_slice_eq`: `from_slice` = `Ok (DacB.fromSlice …)` for every slice of `usize` values (the
+  `assert_eq!(x, 0)` on the last level, the `u8` conversions, every index and every `push_bit` are shown to succeed).
+* `dacs_byte_access_eq`: `access` = `DacB.access` on every structure with at most 8 levels whose flag vectors were built
+  by `Rank9Sel::new` (`DacBInv`, implied by the invariant `DacB.Rep` of the C11 proofs), every `usize` index.
+* `dacs_byte_c11`: the right-hand sides of `Props/C11.lean` and of the `DacsByte` clause of `Props/C17.lean`, stated
+  for the generated functions.
+
+General lemmas at the top (`list_mapM_ok`, `array_mapM_ok`, `forCountB_succ`, `index_some/none/lt`, `unwrapO_bind`,
+`set!_eq_modify_of_get`, `dacSplit_cons2`) are reused by `GenDacsOpt`. -/
 set_option linter.unusedSimpArgs false
 set_option linter.unusedVariables false
 namespace Sucds.GenEq
@@ -52,14 +69,38 @@ theorem unwrapO_bind {α β : Type} (r : R (Option α)) (k : α → R β) :
   | ok o => cases o <;> rfl
 
 /-- `v[j] = f(v[j])` written as read / write is `Array.modify` -/
-theorem modify_eq_set {α : Type} (v : Array α) (j : Nat) (f : α → α) (h : j < v.size) :
-    v.setIfInBounds j (f v[j]) = v.modify j f := by
+theorem set!_eq_modify_of_get {α : Type} (v : Array α) (j : Nat) (f : α → α) (x : α) (h : v[j]? = some x) :
+    v.set! j (f x) = v.modify j f := by
   apply Array.ext_getElem?
   intro i
-  rw [Array.getElem?_setIfInBounds, Array.getElem?_modify]
+  rw [Array.set!_eq_setIfInBounds, Array.getElem?_setIfInBounds, Array.getElem?_modify]
   by_cases hij : j = i
-  · subst hij; simp [h]
+  · subst hij
+    have hj : j < v.size := by
+      apply Classical.byContradiction; intro hn
+      rw [Array.getElem?_eq_none (by omega)] at h; cases h
+    have hx : v[j] = x := by rw [Array.getElem?_eq_getElem hj] at h; exact Option.some.inj h
+    simp [hj, hx]
   · simp [hij]
+
+theorem get_lt_size {α : Type} (v : Array α) (j : Nat) (x : α) (h : v[j]? = some x) : j < v.size := by
+  apply Classical.byContradiction; intro hn
+  rw [Array.getElem?_eq_none (by omega)] at h; cases h
+
+theorem dacSplit_cons2 (w w' : Nat) (ws : List Nat) (x : Nat) :
+    dacSplit (w :: w' :: ws) x =
+      if x >>> w = 0 then [(x &&& ((1 <<< w) - 1), some false)]
+      else (x &&& ((1 <<< w) - 1), some true) :: dacSplit (w' :: ws) (x >>> w) := by
+  rw [dacSplit]
+  simp
+
+theorem shr_lt_of_lt (y w s : Nat) (h : y < 2^(w + s)) : y >>> w < 2^s := by
+  rw [Nat.shiftRight_eq_div_pow]
+  apply Nat.div_lt_of_lt_mul
+  rw [← Nat.pow_add]; exact h
+
+theorem shr_eq_zero_of_lt (y w : Nat) (h : y < 2^w) : y >>> w = 0 := by
+  rw [Nat.shiftRight_eq_div_pow]; exact Nat.div_eq_of_lt h
 
 /-! ## `DacsByte`: accessors -/
 theorem dacs_byte_default_eq : GenFn.DacsByte.default = DacB.default := rfl
@@ -195,5 +236,391 @@ theorem dacs_byte_access_eq (c : Cfg) (d : DacB) (h : DacBInv c d) (pos : Nat) (
     · rw [if_pos hn, if_pos hn]
     · rw [if_neg hn, if_neg hn, Nat.sub_zero]
       exact dacb_walk_eq c d h d.data.size 0 pos 0 (by omega) hpos
+
+theorem dacb_inv_of_rep (c : Cfg) (ws vs : List Nat) (d : DacB) (hr : DacB.Rep c ws vs d) (h8 : ws.length ≤ 8) :
+    DacBInv c d := by
+  refine ⟨by rw [hr.dsize]; exact h8, ?_⟩
+  intro j hj
+  obtain ⟨bv, h1, h2, _⟩ := hr.flags j (by rw [← hr.dsize]; exact hj)
+  exact ⟨bv, h1, h2⟩
+
+theorem dacb_inv_fromSlice (c : Cfg) (vals : List Nat) (hv : ∀ v ∈ vals, v < 2^64) : DacBInv c (DacB.fromSlice c vals) :=
+  dacb_inv_of_rep c _ vals _ (DacB.fromSlice_rep c vals hv)
+    (by rw [List.length_replicate]; exact (DacB.levels_bounds vals hv).2.1)
+
+/-- `access` on a `from_slice` result: generated = model -/
+theorem dacs_byte_access_fromSlice_eq (c : Cfg) (vals : List Nat) (hv : ∀ v ∈ vals, v < 2^64) (pos : Nat) (hpos : pos < 2^64) :
+    GenFn.DacsByte.access c (DacB.fromSlice c vals) pos = (DacB.fromSlice c vals).access c pos :=
+  dacs_byte_access_eq c _ (dacb_inv_fromSlice c vals hv) pos hpos
+
+/-! ## `dacs_byte::Iter` -/
+open Sucds.IndexIter
+
+def dbAbs (it : GenFn.dacs_byte_Iter) : It := ⟨it.pos⟩
+
+theorem dacb_iter_next_eq (c : Cfg) (it : GenFn.dacs_byte_Iter) (xs : List Nat) (hI : DacBInv c it.seq)
+    (hlen : it.seq.len = .ok xs.length) (hacc : ∀ i, it.seq.access c i = .ok xs[i]?) (hl : xs.length < 2^64) :
+    GenFn.dacs_byte_Iter.next c it =
+      .ok (⟨it.seq, (IndexIter.next xs.length (fun i => C17.okv (it.seq.access c i)) (dbAbs it)).2.pos⟩,
+           (IndexIter.next xs.length (fun i => C17.okv (it.seq.access c i)) (dbAbs it)).1) := by
+  obtain ⟨d, pos⟩ := it
+  simp only [] at hI hlen hacc
+  show ((GenFn.DacsByte.len d).bind fun t => (if pos < t then
+      (GenFn.DacsByte.access c d pos).bind fun t1 => (RS.unwrap t1).bind fun x => (cadd c pos 1).bind fun p =>
+        .ok ((⟨d, p⟩ : GenFn.dacs_byte_Iter), some x)
+    else .ok (⟨d, pos⟩, none) : R _).bind fun j => .ok (j.1, j.2)) = _
+  unfold IndexIter.next dbAbs
+  rw [dacs_byte_len_eq, hlen, bok]
+  by_cases hp : pos < xs.length
+  · rw [if_pos hp, if_pos hp, dacs_byte_access_eq c d hI pos (by omega), hacc pos, List.getElem?_eq_getElem hp, bok,
+      unwrap_some, bok, cadd_ok c (by omega), bok, bok]
+    simp only [C17.okv, hacc pos, List.getElem?_eq_getElem hp]
+  · rw [if_neg hp, if_neg hp, bok]
+
+theorem dacb_iter_size_hint_eq (c : Cfg) (it : GenFn.dacs_byte_Iter) (n : Nat) (hlen : it.seq.len = .ok n)
+    (hp : it.pos ≤ n) :
+    GenFn.dacs_byte_Iter.size_hint c it = .ok (IndexIter.sizeHint n (dbAbs it)) := by
+  unfold GenFn.dacs_byte_Iter.size_hint IndexIter.sizeHint dbAbs
+  rw [dacs_byte_len_eq, hlen, bok, csub_ok c hp, bok]
+
+/-- `n` calls of the generated `next`, each preceded by the generated `size_hint` -/
+def dbRunN (c : Cfg) : GenFn.dacs_byte_Iter → Nat → R (List (Option Nat × (Nat × Option Nat)))
+  | _, 0 => .ok []
+  | it, n+1 =>
+    (GenFn.dacs_byte_Iter.size_hint c it).bind fun sh =>
+    (GenFn.dacs_byte_Iter.next c it).bind fun r =>
+    (dbRunN c r.1 n).bind fun l => .ok ((r.2, sh) :: l)
+
+theorem dacb_iter_runN (c : Cfg) (d : DacB) (xs : List Nat) (hI : DacBInv c d)
+    (hlen : d.len = .ok xs.length) (hacc : ∀ i, d.access c i = .ok xs[i]?) (hl : xs.length < 2^64) :
+    ∀ (n pos : Nat), pos ≤ xs.length →
+      dbRunN c ⟨d, pos⟩ n = .ok (runN xs.length (fun i => C17.okv (d.access c i)) ⟨pos⟩ n) := by
+  intro n
+  induction n with
+  | zero => intro pos _; rfl
+  | succ n ih =>
+    intro pos hp
+    simp only [dbRunN, runN]
+    rw [dacb_iter_size_hint_eq c ⟨d, pos⟩ xs.length hlen hp, bok, dacb_iter_next_eq c ⟨d, pos⟩ xs hI hlen hacc hl, bok]
+    simp only [dbAbs]
+    rw [ih _ (indexNext_pos_le xs.length _ ⟨pos⟩ hp), bok]
+
+/-- C17 for the generated `DacsByte::iter` on the model's `from_slice` result: the stored values in order, then `None`
+    forever, exact size hints -/
+theorem dacs_byte_iter_c17 (c : Cfg) (vals : List Nat) (hv : ∀ v ∈ vals, v < 2^64) (hl : vals.length < 2^64) (n : Nat) :
+    dbRunN c (GenFn.DacsByte.iter (DacB.fromSlice c vals)) n = .ok (C17.expected vals n) := by
+  rw [dacs_byte_iter_eq, dacb_iter_runN c _ vals (dacb_inv_fromSlice c vals hv) (DacB.len_ok c vals hv)
+    (DacB.access_ok c vals hv) hl n 0 (Nat.zero_le _)]
+  rw [C17.holds.2.2.1 c vals hv n]
+
+/-! ## `DacsByte::from_slice` -/
+
+/-- the body of the level loop for one value, as generated -/
+def dacbPushBody (c : Cfg) (num_levels : Nat) :
+    Nat → Array (Array Nat) × Nat × Array BV → R (RS.Step (Array (Array Nat) × Nat × Array BV) Empty) := fun j st3 =>
+  let data3 := st3.1
+  let x4 := st3.2.1
+  let flags2 := st3.2.2
+  (RS.unwrapRes (if (x4 &&& GenFn.dacs_byte.LEVEL_MASK) < 256 then RS.Res.ok (x4 &&& GenFn.dacs_byte.LEVEL_MASK) else RS.Res.err)).bind fun t4 =>
+  (RS.index data3 j).bind fun v =>
+  (RS.setIndex data3 j (v.push t4)).bind fun arr =>
+  (cshr c x4 GenFn.dacs_byte.LEVEL_WIDTH).bind fun x5 =>
+  (csub c num_levels 1).bind fun t5 =>
+  if j = t5 then
+    (RS.assert (x5 == 0)).bind fun _ =>
+    .ok (.brk (arr, x5, flags2))
+  else
+    if x5 = 0 then
+      (RS.index flags2 j).bind fun self_ =>
+      ((GenFn.BitVector.push_bit c self_ false)).bind fun r =>
+      (RS.setIndex flags2 j r.1).bind fun arr1 =>
+      .ok (.brk (arr, x5, arr1))
+    else
+      (RS.index flags2 j).bind fun self_1 =>
+      ((GenFn.BitVector.push_bit c self_1 true)).bind fun r1 =>
+      (RS.setIndex flags2 j r1.1).bind fun arr2 =>
+      .ok (.next (arr, x5, arr2))
+
+def dacbPushTail (ex1 : RS.Exit (Array (Array Nat) × Nat × Array BV) Empty) : R (Array (Array Nat) × Array BV) :=
+  match ex1 with
+    | .ret rv1 => nomatch rv1
+    | .done st4 =>
+      let data4 := st4.1
+      let x6 := st4.2.1
+      let flags3 := st4.2.2
+      .ok (data4, flags3)
+
+/-- the body of the loop over the values, as generated -/
+def dacbValBody (c : Cfg) (num_levels : Nat) : Nat → Array (Array Nat) × Array BV → R (Array (Array Nat) × Array BV) :=
+  fun x2 st2 =>
+  let data2 := st2.1
+  let flags1 := st2.2
+  (RS.unwrap (some x2)).bind fun x3 =>
+  (RS.forRangeB (ρ := Empty) 0 num_levels (data2, x3, flags1) (dacbPushBody c num_levels)).bind dacbPushTail
+
+/-- what follows the computation of the maximum, as generated -/
+def dacbTail (c : Cfg) (vals : Array Nat) (maxv2 : Nat) : R (RS.Res DacB) :=
+  (GenFn.utils.needed_bits c maxv2).bind fun num_bits =>
+  (GenFn.utils.ceiled_divide c num_bits GenFn.dacs_byte.LEVEL_WIDTH).bind fun num_levels =>
+  (RS.assert (num_levels != 0)).bind fun _ =>
+  if num_levels = 1 then
+    (Array.mapM (fun x1 =>
+        (RS.unwrap (some x1)).bind fun t1 =>
+        RS.unwrapRes (if t1 < 256 then RS.Res.ok t1 else RS.Res.err)) vals).bind fun data =>
+    .ok (RS.Res.ok ({ data := #[data], flags := #[] } : Sucds.DacB))
+  else
+    let data1 := (Array.replicate num_levels (#[]))
+    (csub c num_levels 1).bind fun t3 =>
+    let flags := (Array.replicate t3 ({ words := #[], len := 0 } : Sucds.BV))
+    (RS.forList (dacbValBody c num_levels) vals.toList (data1, flags)).bind fun st5 =>
+    let data5 := st5.1
+    let flags4 := st5.2
+    (Array.mapM (fun x__ =>
+        (GenFn.Rank9Sel.new c x__)) flags4).bind fun flags5 =>
+    .ok (RS.Res.ok ({ data := data5, flags := flags5 } : Sucds.DacB))
+
+theorem dacs_byte_from_slice_unfold (c : Cfg) (vals : Array Nat) :
+    GenFn.DacsByte.from_slice c vals =
+      if (vals.size == 0) = true then .ok (RS.Res.ok GenFn.DacsByte.default)
+      else
+        (RS.forListB (fun x maxv => (.ok (.next (Nat.max maxv x)) : R (RS.Step Nat (RS.Res DacB)))) vals.toList 0).bind fun ex =>
+        match ex with
+          | .ret rv => .ok rv
+          | .done st1 => dacbTail c vals st1 := rfl
+
+/-- the level loop for one value is the model's `pushVal` on the chunks of `dacSplit` (the `assert_eq!(x, 0)` on the
+    last level holds because the value fits the remaining levels) -/
+theorem dacb_push_loop (c : Cfg) (n : Nat) :
+    ∀ (m j y : Nat) (data : Array (Array Nat)) (flags : Array BV), j + (m + 1) = n → data.size = n →
+      flags.size = n - 1 →
+      (∀ i, j ≤ i → i + 1 < n → ∃ bv, flags[i]? = some bv ∧ bv.Inv ∧ bv.len + 1 < 2^64) →
+      y < 2^(8 * (m + 1)) →
+      (RS.forCountB (dacbPushBody c n) j (m + 1) (data, y, flags)).bind dacbPushTail =
+        .ok (DacB.pushVal data flags j (dacSplit (List.replicate (m + 1) 8) y)) := by
+  intro m
+  induction m with
+  | zero =>
+    intro j y data flags hj hd hf hfl hy
+    have hjd : j < data.size := by omega
+    have hmask : y &&& 255 < 256 := Nat.and_lt_two_pow y (by decide : 255 < 2^8)
+    have hz : y >>> 8 = 0 := shr_eq_zero_of_lt y 8 (by simpa using hy)
+    rw [forCountB_succ]
+    conv => lhs; arg 1; arg 1; unfold dacbPushBody
+    simp only [GenFn.dacs_byte.LEVEL_MASK, GenFn.dacs_byte.LEVEL_WIDTH]
+    rw [if_pos hmask, unwrapRes_ok, bok, index_lt _ _ hjd, bok, setIndex_ok _ _ _ hjd, bok,
+      cshr_ok c (by decide : 8 < 64), bok, csub_ok c (by omega : 1 ≤ n), bok, if_pos (by omega), hz,
+      Cow.assert_ok (0 == 0) rfl, bok, bok]
+    have hdm : data.set! j (data[j].push (y &&& 255)) = data.modify j (fun d => d.push (y &&& 255)) :=
+      set!_eq_modify_of_get data j (fun d => d.push (y &&& 255)) data[j] (Array.getElem?_eq_getElem hjd)
+    simp only [List.replicate, dacSplit, DacB.pushVal]
+    rw [hdm]
+    rfl
+  | succ m ih =>
+    intro j y data flags hj hd hf hfl hy
+    have hjd : j < data.size := by omega
+    have hmask : y &&& 255 < 256 := Nat.and_lt_two_pow y (by decide : 255 < 2^8)
+    obtain ⟨bv, hbv, hinv, hlen⟩ := hfl j (Nat.le_refl _) (by omega)
+    have hjf : j < flags.size := get_lt_size _ _ _ hbv
+    have hy' : y >>> 8 < 2^(8 * (m + 1)) := shr_lt_of_lt y 8 _ (by rw [show 8 + 8 * (m + 1) = 8 * (m + 1 + 1) by omega]; exact hy)
+    have hdm : data.set! j (data[j].push (y &&& 255)) = data.modify j (fun d => d.push (y &&& 255)) :=
+      set!_eq_modify_of_get data j (fun d => d.push (y &&& 255)) data[j] (Array.getElem?_eq_getElem hjd)
+    rw [forCountB_succ]
+    conv => lhs; arg 1; arg 1; unfold dacbPushBody
+    simp only [GenFn.dacs_byte.LEVEL_MASK, GenFn.dacs_byte.LEVEL_WIDTH]
+    rw [if_pos hmask, unwrapRes_ok, bok, index_lt _ _ hjd, bok, setIndex_ok _ _ _ hjd, bok,
+      cshr_ok c (by decide : 8 < 64), bok, csub_ok c (by omega : 1 ≤ n), bok, if_neg (by omega), hdm]
+    rw [show List.replicate (m + 1 + 1) 8 = 8 :: 8 :: List.replicate m 8 from rfl, dacSplit_cons2]
+    by_cases hz : y >>> 8 = 0
+    · rw [if_pos hz, if_pos hz, index_some _ _ _ hbv, bok, push_bit_eq c bv hinv false hlen, bok,
+        setIndex_ok _ _ _ hjf, bok, bok]
+      simp only [DacB.pushVal]
+      rw [set!_eq_modify_of_get flags j (fun f => f.pushBit false) bv hbv]
+      rfl
+    · rw [if_neg hz, if_neg hz, index_some _ _ _ hbv, bok, push_bit_eq c bv hinv true hlen, bok,
+        setIndex_ok _ _ _ hjf, bok, bok]
+      simp only []
+      rw [set!_eq_modify_of_get flags j (fun f => f.pushBit true) bv hbv]
+      have hz' := ih (j + 1) (y >>> 8) (data.modify j (fun d => d.push (y &&& 255)))
+        (flags.modify j (fun f => f.pushBit true)) (by omega) (by rw [Array.size_modify]; exact hd)
+        (by rw [Array.size_modify]; exact hf)
+        (by
+          intro i hji hin
+          obtain ⟨bv', h1, h2, h3⟩ := hfl i (by omega) hin
+          refine ⟨bv', ?_, h2, h3⟩
+          rw [Array.getElem?_modify, if_neg (by omega)]; exact h1)
+        hy'
+      simp only [DacB.pushVal]
+      exact hz'
+
+theorem lev_length_le (ws vs : List Nat) (j : Nat) : (lev ws vs j).length ≤ vs.length := by
+  induction j with
+  | zero => exact Nat.le_refl _
+  | succ j ih =>
+    simp only [lev, Dac.next, List.length_map]
+    exact Nat.le_trans (List.length_filter_le _ _) ih
+
+/-- a flag vector during the build is well formed and no longer than the number of values pushed so far -/
+theorem frep_flag (ws pre : List Nat) (flags : Array BV) (hf : FRep ws (lev ws pre) flags) (i : Nat)
+    (hi : i + 1 < ws.length) : ∃ bv, flags[i]? = some bv ∧ bv.Inv ∧ bv.len ≤ pre.length := by
+  obtain ⟨bv, h1, h2, h3⟩ := hf.flags i hi
+  refine ⟨bv, h1, h2, ?_⟩
+  have := congrArg List.length h3
+  rw [BV.toList_length, List.length_map] at this
+  rw [this]; exact lev_length_le ws pre i
+
+/-- the loop over the values is the model's `foldl` of `pushVal` -/
+theorem dacb_vals_loop (c : Cfg) (n : Nat) (hn : 2 ≤ n) :
+    ∀ (xs pre : List Nat) (data : Array (Array Nat)) (flags : Array BV),
+      DacB.DRep (List.replicate n 8) (lev (List.replicate n 8) pre) data →
+      FRep (List.replicate n 8) (lev (List.replicate n 8) pre) flags →
+      (∀ x ∈ xs, x < 2^(8 * n)) → pre.length + xs.length < 2^64 →
+      RS.forList (dacbValBody c n) xs (data, flags) =
+        .ok (xs.foldl (fun (s : Array (Array Nat) × Array BV) x =>
+          DacB.pushVal s.1 s.2 0 (dacSplit (List.replicate n 8) x)) (data, flags)) := by
+  have hne : List.replicate n 8 ≠ [] := by
+    intro h; have := congrArg List.length h; simp at this; omega
+  intro xs
+  induction xs with
+  | nil => intro _ _ _ _ _ _ _; rfl
+  | cons x t ih =>
+    intro pre data flags hd hf hx hl
+    have hds := hd.dsize
+    have hfs := hf.fsize
+    rw [List.length_replicate] at hds hfs
+    rw [List.length_cons] at hl
+    have hstep := dacb_push_loop c n (n - 1) 0 x data flags (by omega) hds hfs
+      (by
+        intro i _ hin
+        obtain ⟨bv, h1, h2, h3⟩ := frep_flag _ pre flags hf i (by rw [List.length_replicate]; exact hin)
+        exact ⟨bv, h1, h2, by omega⟩)
+      (by rw [show n - 1 + 1 = n by omega]; exact hx x (by simp))
+    rw [show n - 1 + 1 = n by omega] at hstep
+    have hs := DacB.foldl_spec (List.replicate n 8) hne [x] pre data flags hd hf
+    rw [List.foldl_cons, List.foldl_nil] at hs
+    unfold RS.forList
+    unfold dacbValBody
+    simp only []
+    rw [unwrap_some, bok]
+    unfold RS.forRangeB
+    rw [Nat.sub_zero, hstep, bok, List.foldl_cons]
+    exact ih (pre ++ [x]) _ _ hs.1 hs.2 (fun y hy => hx y (by simp [hy]))
+      (by rw [List.length_append, List.length_singleton]; omega)
+
+theorem ceiled_divide_eq (c : Cfg) (x y : Nat) (hy : 1 ≤ y) (h : x + y < 2^64) :
+    GenFn.utils.ceiled_divide c x y = .ok ((x + y - 1) / y) := by
+  unfold GenFn.utils.ceiled_divide RS.cdiv
+  rw [cadd_ok c h, bok, csub_ok c (by omega), bok, if_neg (by omega)]
+
+theorem toList_ne_nil {α : Type} (a : Array α) (h : a.size ≠ 0) : a.toList.isEmpty = false := by
+  cases hl : a.toList with
+  | nil => exfalso; apply h; rw [← Array.length_toList, hl]; rfl
+  | cons x t => rfl
+
+/-- **`DacsByte::from_slice`**: generated = model (always `Ok`), every build configuration, every slice of `usize`
+    values (`vals.size < 2^64` is true of every slice) -/
+theorem dacs_byte_from_slice_eq (c : Cfg) (vals : Array Nat) (hv : ∀ x ∈ vals, x < 2^64) (hn : vals.size < 2^64) :
+    GenFn.DacsByte.from_slice c vals = .ok (RS.Res.ok (DacB.fromSlice c vals.toList)) := by
+  rw [dacs_byte_from_slice_unfold]
+  by_cases h0 : vals.size = 0
+  · have : vals = #[] := Array.eq_empty_of_size_eq_zero h0
+    subst this; rfl
+  · have he : vals.toList.isEmpty = false := toList_ne_nil vals h0
+    have hv' : ∀ v ∈ vals.toList, v < 2^64 := fun v h => hv v (Array.mem_toList_iff.mp h)
+    have hmax := foldl_max_lt (2^64) vals.toList 0 (by decide) hv'
+    have hnb := neededBits_eq c _ hmax
+    have hb1 := bitlen_pos (vals.toList.foldl max 0)
+    have hb2 := bitlen_le _ hmax
+    have hG : Gen.DACB_LEVEL_WIDTH = 8 := rfl
+    obtain ⟨hl1, hl2, hl3⟩ := DacB.levels_bounds vals.toList hv'
+    have hlev : DacB.levels vals.toList = (neededBits c (vals.toList.foldl max 0) + 8 - 1) / 8 := by
+      unfold DacB.levels
+      rw [he, hnb]
+      simp only [Bool.false_eq_true, if_false]
+      omega
+    rw [if_neg (by simp [h0]), c09_max_loop _ (fun _ _ => rfl), bok]
+    simp only []
+    unfold dacbTail
+    simp only [GenFn.dacs_byte.LEVEL_WIDTH]
+    rw [Cow.needed_bits_eq c _ hmax, bok, ceiled_divide_eq c _ 8 (by decide) (by rw [hnb]; omega), bok, ← hlev]
+    rw [DacB.fromSlice_unfold c vals.toList he (DacB.levels vals.toList) (by rw [hG]; exact hlev)]
+    generalize hnd : DacB.levels vals.toList = n at *
+    rw [Cow.assert_ok _ (by simp; omega), bok]
+    by_cases h1 : n = 1
+    · rw [if_pos h1, if_pos h1]
+      have h256 : ∀ x ∈ vals, x < 256 := by
+        intro x hx
+        have := hl3 x (Array.mem_toList_iff.mpr hx)
+        rw [h1] at this; exact this
+      rw [array_mapM_ok _ (fun x => x % 256) vals (by
+        intro x hx
+        rw [unwrap_some, bok, if_pos (h256 x hx), Nat.mod_eq_of_lt (h256 x hx)]; rfl), bok, Array.toArray_toList]
+    · rw [if_neg h1, if_neg h1]
+      rw [csub_ok c (by omega : 1 ≤ n), bok]
+      have hd0 := DacB.DRep.init (List.replicate n 8)
+      have hf0 := FRep.init (List.replicate n 8)
+      rw [List.length_replicate] at hd0 hf0
+      have hne : List.replicate n 8 ≠ [] := by
+        intro h; have := congrArg List.length h; simp at this; omega
+      rw [show ({ words := #[], len := 0 } : BV) = BV.new from rfl,
+        dacb_vals_loop c n (by omega) vals.toList [] _ _ hd0 hf0
+        (fun x hx => by rw [Nat.mul_comm]; exact hl3 x hx)
+        (by rw [Array.length_toList]; simpa using hn), bok]
+      have hs := DacB.foldl_spec (List.replicate n 8) hne vals.toList [] _ _ hd0 hf0
+      rw [List.nil_append] at hs
+      rw [hG]
+      generalize (vals.toList.foldl (fun (s : Array (Array Nat) × Array BV) x =>
+          DacB.pushVal s.1 s.2 0 (dacSplit (List.replicate n 8) x))
+          (Array.replicate n #[], Array.replicate (n - 1) BV.new)) = r at hs
+      rw [array_mapM_ok _ (R9.new c) r.2 (by
+        intro bv hbv
+        obtain ⟨i, hi⟩ := Array.getElem?_of_mem hbv
+        have his := get_lt_size _ _ _ hi
+        have hfs := hs.2.fsize
+        rw [List.length_replicate] at hfs
+        obtain ⟨bv', g1, g2, g3⟩ := frep_flag _ vals.toList r.2 hs.2 i (by rw [List.length_replicate]; omega)
+        rw [hi] at g1
+        cases g1
+        rw [Array.length_toList] at g3
+        exact rs_new_eq c bv g2 (by omega)), bok]
+
+theorem dacs_byte_build_from_slice_eq (c : Cfg) (vals : Array Nat) (hv : ∀ x ∈ vals, x < 2^64) (hn : vals.size < 2^64) :
+    GenFn.DacsByte.build_from_slice c vals = .ok (RS.Res.ok (DacB.fromSlice c vals.toList)) :=
+  dacs_byte_from_slice_eq c vals hv hn
+
+/-! ## C11 (and the `DacsByte` clause of C17) for the generated functions -/
+
+/-- **C11 for the generated `DacsByte`**: for every build configuration and every slice of `usize` values, the
+    generated `from_slice` (= `build_from_slice`) returns `Ok(d)` without panicking, and on `d` the generated `access`
+    returns `vals[i]` for `i < n` and `None` for every other `usize` index, `len`/`num_vals` report `n`, the number of
+    levels is `⌈bitlen(max)/8⌉` (1 for empty input), all widths are 8, and the generated iterator yields the input
+    in order, then `None` forever, with exact size hints. -/
+theorem dacs_byte_c11 (c : Cfg) (vals : Array Nat) (hv : ∀ x ∈ vals, x < 2^64) (hn : vals.size < 2^64) :
+    ∃ d, GenFn.DacsByte.from_slice c vals = .ok (RS.Res.ok d) ∧
+      GenFn.DacsByte.build_from_slice c vals = .ok (RS.Res.ok d) ∧
+      d = DacB.fromSlice c vals.toList ∧
+      (∀ i, i < 2^64 → GenFn.DacsByte.access c d i = .ok vals[i]?) ∧
+      GenFn.DacsByte.len d = .ok vals.size ∧
+      GenFn.DacsByte.num_vals d = .ok vals.size ∧
+      GenFn.DacsByte.is_empty d = .ok (vals.size == 0) ∧
+      GenFn.DacsByte.num_levels d = (if vals.size = 0 then 1 else (bitlen (vals.toList.foldl max 0) + 7) / 8) ∧
+      (GenFn.DacsByte.widths d).toList = List.replicate (DacB.levels vals.toList) 8 ∧
+      ∀ n, dbRunN c (GenFn.DacsByte.iter d) n = .ok (C17.expected vals.toList n) := by
+  have hv' : ∀ v ∈ vals.toList, v < 2^64 := fun v h => hv v (Array.mem_toList_iff.mp h)
+  obtain ⟨a1, a2, a3, a4⟩ := C11.holds c vals.toList hv'
+  rw [Array.length_toList] at a2
+  refine ⟨_, dacs_byte_from_slice_eq c vals hv hn, dacs_byte_build_from_slice_eq c vals hv hn, rfl, ?_, ?_, ?_, ?_, ?_, ?_, ?_⟩
+  · intro i hi
+    rw [dacs_byte_access_fromSlice_eq c _ hv' i hi, a1 i, Array.getElem?_toList]
+  · rw [dacs_byte_len_eq, a2]
+  · rw [dacs_byte_num_vals_eq, a2]
+  · rw [dacs_byte_is_empty_eq, a2]; rfl
+  · rw [dacs_byte_num_levels_eq, a3]
+    by_cases h0 : vals.size = 0
+    · have : vals = #[] := Array.eq_empty_of_size_eq_zero h0
+      subst this; rfl
+    · rw [toList_ne_nil vals h0, if_neg h0]; rfl
+  · rw [dacs_byte_widths_eq, a4]
+  · intro n
+    exact dacs_byte_iter_c17 c vals.toList hv' (by rw [Array.length_toList]; exact hn) n
 
 end Sucds.GenEq
